@@ -501,6 +501,12 @@ class MinFlowDecomp(pathmodel.AbstractPathModelDAG): # Note that we inherit from
             if "time_limit" in subgraph_solver_options:
                 subgraph_solver_options["time_limit"] = self.time_limit - self.solve_time_elapsed
 
+            # A window in which no edge has to be explained (no edge, or only ignored / unvalued ones) gives no bound,
+            # and MinFlowDecomp is not defined on it
+            if not any(self.flow_attr in subgraph.edges[e] and e not in subgraph_edges_to_ignore for e in subgraph.edges()):
+                right_node_index = min(right_node_index + MinFlowDecomp.subgraph_lowerbound_shift, self.G.number_of_nodes() - 1)
+                continue
+
             subgraph_mfd_solver = MinFlowDecomp(
                     G=subgraph,
                     flow_attr=self.flow_attr,
